@@ -38,6 +38,8 @@ type dNest struct {
 	MS map[string]string
 	MB map[string][]byte
 	PM *map[string]interface{}
+	TP map[string]*string // typed maps of pointers to strings / []byte
+	TQ map[string]*[]byte
 	SS [][]dLeaf  // structs reached through a slice of slices
 	SQ [][]*dLeaf // ... of pointers
 	N  int
@@ -138,6 +140,12 @@ func mkTagMap(c *canary, p *prng) (tagMap, []encrypt.PointerTag) {
 		m["list"] = []interface{}{map[string]interface{}{"name": c.prot(), "other": c.prot()}}
 		tags = append(tags, encrypt.PointerTag{Pointer: "/list/0/name", Classification: encrypt.SensitiveClassification})
 	}
+	if p.chance(1, 3) {
+		// a tagged value held through a pointer: filtered in place, still a pointer
+		pv := c.prot()
+		m["pv"] = &pv
+		tags = append(tags, encrypt.PointerTag{Pointer: "/pv", Classification: encrypt.SensitiveClassification, Filter: ops[p.intn(4)]})
+	}
 	// pointer tags to values two or more containers below the Taggable: through maps, a pointer to a
 	// map, a slice inside a nested map, a struct holding a map
 	deepVal := func() (string, encrypt.PointerTag) {
@@ -234,6 +242,11 @@ func mkLeaf(c *canary, p *prng) dLeaf {
 
 func mkMap(c *canary, p *prng, depth int, structValues bool) map[string]interface{} {
 	m := map[string]interface{}{"s": c.prot(), "b": []byte(c.prot()), "n": 3, "strs": []string{c.prot(), c.prot()}}
+	if p.chance(1, 2) {
+		// pointers to a string / []byte / slice of strings as map values
+		ps, pb, pl := c.prot(), []byte(c.prot()), []string{c.prot()}
+		m["pstr"], m["pbytes"], m["pstrs"] = &ps, &pb, &pl
+	}
 	if depth > 0 {
 		m["m"] = mkMap(c, p, depth-1, structValues)
 		m["ms"] = map[string]string{"k": c.prot()}
@@ -324,6 +337,10 @@ func deepShapes(p *prng, n int, st *stats, oracle func(string, ...any)) {
 			ms := map[string]string{"a": c.prot()}
 			pm := mkMap(c, p, 1, false)
 			nst := &dNest{L: l, P: &lp, S: []dLeaf{mkLeaf(c, p), mkLeaf(c, p)}, SP: []*dLeaf{&lp}, M: mkMap(c, p, 2, false), MS: ms, MB: map[string][]byte{"k": []byte(c.prot())}, PM: &pm, N: 1}
+			if p.chance(1, 2) {
+				tp, tq := c.prot(), []byte(c.prot())
+				nst.TP, nst.TQ = map[string]*string{"a": &tp}, map[string]*[]byte{"a": &tq}
+			}
 			payload, kind = nst, "ptr-nested"
 		case 2:
 			payload, kind = []dLeaf{mkLeaf(c, p), mkLeaf(c, p)}, "slice-struct"
